@@ -17,6 +17,8 @@ from typing import Sequence
 from markupsafe import Markup
 
 from liquid2.builtin import Null
+from liquid2.builtin.expressions import _eq
+from liquid2.builtin.expressions import is_truthy
 from liquid2.exceptions import LiquidTypeError
 from liquid2.filter import decimal_arg
 from liquid2.filter import sequence_filter
@@ -182,9 +184,9 @@ def where(
 ) -> list[object]:
     """Return a list of items from _sequence_ where _attr_ equals _value_."""
     if value is not None and not is_undefined(value):
-        return [itm for itm in sequence if _getitem(itm, attr) == value]
+        return [itm for itm in sequence if _eq(_getitem(itm, attr), value)]
 
-    return [itm for itm in sequence if _getitem(itm, attr) not in (False, None)]
+    return [itm for itm in sequence if is_truthy(_getitem(itm, attr))]
 
 
 @sequence_filter
